@@ -46,7 +46,18 @@ public:
                 return lhs.end < rhs;
             });
 
-        assert(search != std::end(ranges) && "Offset is out of range");
+        if(search == std::end(ranges))
+        {
+            // pugixml reports offsets in its own (possibly transcoded,
+            // NUL-terminated) copy of the buffer, they can point past the end
+            // of the original content: clamp to the end of the last line
+            if(ranges.empty())
+            {
+                return {path, 1, 1};
+            }
+            const auto& last = ranges.back();
+            return {path, ranges.size(), last.end - last.begin + 1};
+        }
 
         const auto line =
             static_cast<std::size_t>(search - std::begin(ranges) + 1);
